@@ -107,29 +107,31 @@ Record conn := { c_sock : nat; c_tcp : bool; c_queries : list obj; c_reading : b
 Record hostq := {
   h_cb : cbk; h_remaining : nat; h_names : list cand; h_cur_single : bool; h_family : nat (* 0 4 6 *);
   h_lookups : list bool; h_localhost : bool; h_nodes : bool; h_v4 : bool; h_nodata : nat;
-  h_qid_a : nat; h_qid_aaaa : nat
+  h_qid_a : nat; h_qid_aaaa : nat;
+  h_nomem : bool             (* 740940b: one of the lookups ran out of memory *)
 }.
 Definition mk_host k names family lookups localhost :=
   {| h_cb := k; h_remaining := 0; h_names := names; h_cur_single := false; h_family := family; h_lookups := lookups;
-     h_localhost := localhost; h_nodes := false; h_v4 := false; h_nodata := 0; h_qid_a := 0; h_qid_aaaa := 0 |}.
+     h_localhost := localhost; h_nodes := false; h_v4 := false; h_nodata := 0; h_qid_a := 0; h_qid_aaaa := 0;
+     h_nomem := false |}.
 Definition h_set_remaining n h := {| h_cb := h_cb h; h_remaining := n; h_names := h_names h; h_cur_single := h_cur_single h;
   h_family := h_family h; h_lookups := h_lookups h; h_localhost := h_localhost h; h_nodes := h_nodes h; h_v4 := h_v4 h;
-  h_nodata := h_nodata h; h_qid_a := h_qid_a h; h_qid_aaaa := h_qid_aaaa h |}.
+  h_nodata := h_nodata h; h_qid_a := h_qid_a h; h_qid_aaaa := h_qid_aaaa h; h_nomem := h_nomem h |}.
 Definition h_set_names l cs h := {| h_cb := h_cb h; h_remaining := h_remaining h; h_names := l; h_cur_single := cs;
   h_family := h_family h; h_lookups := h_lookups h; h_localhost := h_localhost h; h_nodes := h_nodes h; h_v4 := h_v4 h;
-  h_nodata := h_nodata h; h_qid_a := h_qid_a h; h_qid_aaaa := h_qid_aaaa h |}.
+  h_nodata := h_nodata h; h_qid_a := h_qid_a h; h_qid_aaaa := h_qid_aaaa h; h_nomem := h_nomem h |}.
 Definition h_set_lookups l h := {| h_cb := h_cb h; h_remaining := h_remaining h; h_names := h_names h; h_cur_single := h_cur_single h;
   h_family := h_family h; h_lookups := l; h_localhost := h_localhost h; h_nodes := h_nodes h; h_v4 := h_v4 h;
-  h_nodata := h_nodata h; h_qid_a := h_qid_a h; h_qid_aaaa := h_qid_aaaa h |}.
-Definition h_set_ai nodes v4 h := {| h_cb := h_cb h; h_remaining := h_remaining h; h_names := h_names h; h_cur_single := h_cur_single h;
+  h_nodata := h_nodata h; h_qid_a := h_qid_a h; h_qid_aaaa := h_qid_aaaa h; h_nomem := h_nomem h |}.
+Definition h_set_ai nodes v4 nm h := {| h_cb := h_cb h; h_remaining := h_remaining h; h_names := h_names h; h_cur_single := h_cur_single h;
   h_family := h_family h; h_lookups := h_lookups h; h_localhost := h_localhost h; h_nodes := nodes; h_v4 := v4;
-  h_nodata := h_nodata h; h_qid_a := h_qid_a h; h_qid_aaaa := h_qid_aaaa h |}.
+  h_nodata := h_nodata h; h_qid_a := h_qid_a h; h_qid_aaaa := h_qid_aaaa h; h_nomem := nm |}.
 Definition h_set_nodata n h := {| h_cb := h_cb h; h_remaining := h_remaining h; h_names := h_names h; h_cur_single := h_cur_single h;
   h_family := h_family h; h_lookups := h_lookups h; h_localhost := h_localhost h; h_nodes := h_nodes h; h_v4 := h_v4 h;
-  h_nodata := n; h_qid_a := h_qid_a h; h_qid_aaaa := h_qid_aaaa h |}.
+  h_nodata := n; h_qid_a := h_qid_a h; h_qid_aaaa := h_qid_aaaa h; h_nomem := h_nomem h |}.
 Definition h_set_qids a b h := {| h_cb := h_cb h; h_remaining := h_remaining h; h_names := h_names h; h_cur_single := h_cur_single h;
   h_family := h_family h; h_lookups := h_lookups h; h_localhost := h_localhost h; h_nodes := h_nodes h; h_v4 := h_v4 h;
-  h_nodata := h_nodata h; h_qid_a := a; h_qid_aaaa := b |}.
+  h_nodata := h_nodata h; h_qid_a := a; h_qid_aaaa := b; h_nomem := h_nomem h |}.
 Inductive cell := CQuery (q : query) | CConn (c : conn) | CHost (h : hostq) | COpaque.
 
 (* API calls a script can make (and the top-level inputs that submit requests) *)
@@ -742,7 +744,8 @@ with search_callback (fuel : nat) (o : obj) (k : cbk) (cur_single : bool) (lft :
         let! (st, skip) := search_next f o k lft nodata' in
         if negb (zeqb st ARES_SUCCESS) && negb skip then end_squery f o k (res st) else ret tt
     | [] =>
-        if zeqb mystatus ARES_ENOTFOUND && nodata' then end_squery f o k (res ARES_ENODATA)
+        (* 39c371c: ENODATA seen along the way wins over the status of the last name *)
+        if nodata' then end_squery f o k (res ARES_ENODATA)
         else end_squery f o k (res mystatus)
     end
   end
@@ -833,7 +836,9 @@ with host_callback (fuel : nat) (o : obj) (r : result) {struct fuel} : M unit :=
         | _ => fail EDESYNC end
       else ret (ARES_SUCCESS, h_nodes h, h_v4 h)) in
   let! h := get_host o in
-  store o (CHost (h_set_ai nodes v4 h)) ;;
+  (* hquery->ai as left by the parser; hquery->nomem (740940b) *)
+  let nm := h_nomem h || zeqb st ARES_ENOMEM || zeqb ais ARES_ENOMEM in
+  store o (CHost (h_set_ai nodes v4 nm h)) ;;
   (* terminate_retries: the other query of this lookup, found by its id, no longer retries *)
   (if zeqb st ARES_SUCCESS && zeqb ais ARES_SUCCESS && v4 && negb (Nat.eqb rem 0) then
      let id := match r_rec r with Some (_, _, id) => id | None => 0 end in
@@ -845,6 +850,7 @@ with host_callback (fuel : nat) (o : obj) (r : result) {struct fuel} : M unit :=
    else ret tt) ;;
   if negb (Nat.eqb rem 0) then ret tt
   else if zeqb st ARES_EDESTRUCTION || zeqb st ARES_ECANCELLED then end_hquery f o st
+  else if nm then end_hquery f o ARES_ENOMEM
   else if negb (zeqb ais ARES_SUCCESS) && negb (zeqb ais ARES_ENODATA) then
     (if zeqb ais ARES_EBADRESP && nodes then end_hquery f o ARES_SUCCESS else end_hquery f o ais)
   else if nodes then end_hquery f o ARES_SUCCESS
